@@ -9,6 +9,7 @@ import Bita.Proofs.IoReader
 import Bita.Proofs.ReaderEnv
 import Bita.Proofs.StepOrder
 import Bita.Proofs.CliRoundtrip
+import Bita.Proofs.ProtoSkip
 
 namespace Bita.Props.C17
 open Bita Bita.Spec
@@ -146,5 +147,25 @@ theorem clone_steps_as_modelled :
     Gen.cloneStepOrder = ["try_init", "banner", "pin", "open_output", "device_check", "scan_output", "reorder",
                           "seed_stdin", "seed_files", "fetch", "flush", "resize", "verify_output"] :=
   Proofs.clone_step_order_fact
+
+/-- **Forward compatibility of the dictionary** (the "unknown fields" clause of `Conforms`, as a
+theorem about the decoder rather than a remark): fields whose number `ChunkDictionary` does not
+know - any wire type, unknown groups included, at any position, any number of them - have no
+effect on the dictionary that is decoded; and the decoder's fuel is never what refuses one. -/
+theorem unknown_dictionary_fields_are_ignored (fs : List (Nat × Option Proto.WireVal))
+    (d : Proto.ChunkDictionary) :
+    Proto.mergeDictionary fs d = Proto.mergeDictionary (fs.filter fun f => Proofs.knownDictTag f.1) d :=
+  Proofs.mergeDictionary_ignores_unknown fs d
+
+theorem dictionary_decode_fuel_irrelevant (b : Bytes) (f : Nat) (hf : b.length < f) :
+    Proto.decodeDictionary b =
+      (Proto.parseMessage [Gen.tag_ChunkDictionary_metadata] f b).bind fun fs => Proto.mergeDictionary fs {} := by
+  unfold Proto.decodeDictionary
+  rw [Proofs.parseMessage_fuel _ (b.length + 1) f b (by omega) hf]
+
+/-- field 9 (varint), an unknown group 10 and field 3 (source_total_size = 7): only the last counts -/
+example : Proto.decodeDictionary [0x48, 0x01, 0x53, 0x08, 0x01, 0x54, 0x18, 0x07] =
+    Proto.decodeDictionary [0x18, 0x07] := by decide
+example : (Proto.decodeDictionary [0x18, 0x07]).map (·.sourceTotalSize) = some 7 := by decide
 
 end Bita.Props.C17
